@@ -266,9 +266,46 @@ impl<'p> Interp<'p> {
 					},
 					_ => None,
 				};
-				let mut cs = Vec::new();
+				// elements written as `x.into()` take their target type from a sibling element when the
+				// context gives no element type (`[s1.into(), s2]` with s2: Action)
+				let mut vals: Vec<(V, bool)> = Vec::new();
+				let mut sibling_tag: Option<String> = None;
 				for x in &a.elems {
-					let v = self.eval_hint(x, eh.as_ref())?;
+					let pending_into = eh.is_none()
+						&& match x {
+							syn::Expr::MethodCall(m) => m.method == "into" && m.args.is_empty() && m.turbofish.is_none(),
+							_ => false,
+						};
+					if pending_into {
+						if let syn::Expr::MethodCall(m) = x {
+							let v = self.eval(&m.receiver)?;
+							vals.push((v, true));
+						}
+					} else {
+						let v = self.eval_hint(x, eh.as_ref())?;
+						if sibling_tag.is_none() {
+							let t = self.deref_val(&v).tag();
+							if self.is_user_type(&t) {
+								sibling_tag = Some(t);
+							}
+						}
+						vals.push((v, false));
+					}
+				}
+				let mut cs = Vec::new();
+				for (v, pending) in vals {
+					let v = if pending {
+						match &sibling_tag {
+							Some(t) => {
+								let ty: syn::Type = syn::parse_str(t).map_err(|_| Ctl::Unsupported("sibling type".into()))?;
+								let inner = self.deref_val(&v);
+								self.convert(inner, &ty)?
+							}
+							None => return unsup("`.into()` inside an array literal without any element of known type"),
+						}
+					} else {
+						v
+					};
 					cs.push(self.cell(v));
 				}
 				Ok(V::Seq(cs))
